@@ -396,9 +396,21 @@ func c17R2(p *Prog, r *Report) {
 	id := p.Func("dns", "resultBuilder", "isDone")
 	okConj := false
 	for _, ret := range id.Returns() {
-		s := exprStr(id.G.V[ret].Node)
-		if strings.Contains(s, "v4done && r.v6done") || strings.Contains(s, "v6done && r.v4done") {
-			okConj = true
+		rs, _ := id.G.V[ret].Node.(*ast.ReturnStmt)
+		if rs == nil || len(rs.Results) != 1 {
+			continue
+		}
+		// <receiver>.v4done && <receiver>.v6done in either order
+		if be, ok := ast.Unparen(rs.Results[0]).(*ast.BinaryExpr); ok && be.Op == token.LAND {
+			names := map[string]bool{}
+			for _, side := range []ast.Expr{be.X, be.Y} {
+				if sel, ok := ast.Unparen(side).(*ast.SelectorExpr); ok && objOf(id.Info(), sel.X) == id.RecvObj() {
+					names[sel.Sel.Name] = true
+				}
+			}
+			if names["v4done"] && names["v6done"] {
+				okConj = true
+			}
 		}
 	}
 	r.Check(okConj, rule, "dns.(*resultBuilder).isDone:both-families", p.posStr(id.Body.Pos()), "done means both families answered", "isDone is not the conjunction of both families' flags")
